@@ -96,8 +96,13 @@ func verifC13Faults() {
 		verifAssert("fault/none-returns", !p)
 		verifAssert("fault/none-content", verifStateIs(path, true, data))
 	case "close":
-		// the error of the deferred close is not part of the property's fault list
-		verifAssert("fault/close-content", verifStateIs(path, true, data))
+		// a failing close is not in the property's fault list: an implementation may ignore it (the call
+		// returns and the file holds data) or report it (panic; the name is old or new)
+		if p {
+			verifAssert("fault/close-reported-old-or-new", verifOr(verifStateIs(path, oldExists, old), verifStateIs(path, true, data)))
+		} else {
+			verifAssert("fault/close-content", verifStateIs(path, true, data))
+		}
 	default:
 		verifAssert("fault/panics", p)
 		verifAssert("fault/old-or-new", verifOr(verifStateIs(path, oldExists, old), verifStateIs(path, true, data)))
